@@ -9,6 +9,7 @@ import random
 import re
 
 import attrs
+from typing import Dict, List, Optional, Union
 
 import lane_conv as L
 from common import Verdict, parse_coq_value, run_cases_file
@@ -177,6 +178,7 @@ def check_c16(v: Verdict, n_worlds: int, flags=None):
                         add_yaml_case(w, conv, t, x, cases, meta, desc, flags)
         user_hooks(v, rng, w, hist)
     quoted_annotations(v, hist)
+    bytes_union_battery(v, hist)
     namedtuple_battery(v, rng, hist, max(12, 2 * n_worlds))
     run_json_model(v, cases, meta)
     v.coverage["input_distribution"] = hist
@@ -243,6 +245,52 @@ def namedtuple_battery(v, rng, hist, n):
                     continue
                 if not deep_same(y, x):
                     v.violation("loads(dumps(x, T), T) differs from x (NamedTuple)", {**desc, "dumped": repr(data)[:300], "loaded": repr(y)[:300]})
+
+
+@attrs.define
+class UBHolder:
+    u: Union[int, bytes]
+    l: List[Union[bytes, float]] = attrs.Factory(list)
+    o: Union[bytes, int, None] = None
+
+
+@dataclasses.dataclass
+class UBData:
+    u: Union[float, bytes]
+    m: Dict[str, Union[int, bytes]] = dataclasses.field(default_factory=dict)
+
+
+def bytes_union_battery(v, hist):
+    """systematic: unions of bytes with the non-str primitives (and None) -- the formats that have no native bytes override the bytes
+    hooks, and a union position dispatches on the runtime class of the value -- at top level, in List / Dict and as attributes of an
+    attrs class and a dataclass, through every importable format: dumps never fails, loads(dumps(x)) == x.  (str | bytes is ambiguous
+    in the text formats and outside their limits.)"""
+    cases = [(Union[int, bytes], [b"x", b"", 3, 0]), (Union[bytes, int, None], [b"yy", None, 0]), (Union[float, bytes], [b"\x00\xff", 1.5]),
+             (List[Union[bytes, float]], [[b"a", 1.5, b""], []]), (Dict[str, Union[int, bytes]], [{"k": b"v", "j": 2}]),
+             (Optional[Union[int, bytes]], [b"z", None, 4]),
+             (UBHolder, [UBHolder(b"q", [b"", 2.5], b"o"), UBHolder(7), UBHolder(b"", [], 0)]), (UBData, [UBData(b"d", {"k": b"", "j": 1}), UBData(2.5)]),
+             (List[UBHolder], [[UBHolder(b"1"), UBHolder(2, [b"3"])]])]
+    n = 0
+    for fname, m in FORMATS.items():
+        conv = m.make_converter()
+        for T, vals in cases:
+            for x in vals:
+                n += 1
+                desc = {"lane": "PRE/C16 bytes in unions", "format": fname, "type": repr(T), "value": repr(x)}
+                v.count(repr(desc), True)
+                try:
+                    data = conv.dumps(copy.deepcopy(x), unstructure_as=T)
+                except Exception as e:
+                    v.violation("dumps failed on a supported value (bytes at a union position)", {**desc, "raised": repr(e)[:300]})
+                    continue
+                try:
+                    y = conv.loads(data, T)
+                except Exception as e:
+                    v.violation("loads rejected what dumps produced (bytes at a union position)", {**desc, "dumped": repr(data)[:300], "raised": repr(e)[:300]})
+                    continue
+                if not deep_same(y, x):
+                    v.violation("loads(dumps(x, T), T) differs from x (bytes at a union position)", {**desc, "dumped": repr(data)[:300], "loaded": repr(y)[:300]})
+    hist["bytes_union_cases"] = n
 
 
 def quoted_annotations(v, hist):
